@@ -5,7 +5,7 @@ from __future__ import annotations
 from ..interp import fresh
 from ..loader import AnalysisError
 from ..terms import K, NONE, S, T_add, T_cmp, T_inv, T_mul, T_neg, T_sub, T_sum, T_truediv, ONE, ZERO, show_norm, subterms
-from .common import Context
+from .common import Context, backing_attr, one_data_attr
 from .problemterms import ACTION, EVENT, STATE, cfgsym, probability_term, problem_interp
 from .solverterms import brief, same
 
@@ -151,7 +151,7 @@ def _initial(ctx, col):
     t = I.call_method("initial_value", [STATE])
     I2 = problem_interp(ctx, cls)
     I2.attrs["pu"], I2.attrs["pz"] = S("PU"), S("PZ")
-    ES = I2.attrs["_random_event_space"]
+    ES = I2.attrs[backing_attr(ctx, cls, "random_event_space")]
     I2.axes_hint = None
     e = fresh("ev")
     prices = ("app", "array", (("tuple", (cfgsym("sales_price_a"), cfgsym("sales_price_b"))),))
@@ -197,7 +197,7 @@ def _hendrix(ctx, col):
           ("app", "lax.dynamic_slice", (T_mul(pzcol, T_cmp("Lt", rlen, sa)), ("tuple", (ZERO,)), ("tuple", (T_add(Ma, ONE),)))))
     c4 = ("atadd", zeros, ("tuple", (sa, sb)), I.dot(pzcol, T_cmp("LtE", sa, rlen)))
     total = T_add(T_add(c1, c2), T_add(c3, c4))
-    idx = I.call_value(I.attrs["_random_event_to_index"], [EVENT], {})
+    idx = I.call_value(I.attrs[one_data_attr(ctx, cls, "random_event_probability", "call", "event index function")], [EVENT], {})
     want = I.elem(total, idx)
     owner, fn = ctx.ct.require(cls, "random_event_probability")
     ok = same(pr, want)
@@ -205,7 +205,7 @@ def _hendrix(ctx, col):
             "four cases: (d_a<s_a, d_b<s_b), (d_a>=s_a via 1-cdf(s_a-1)), (pz column s_b masked < s_a), (pz column s_b summed over >= s_a); "
             "looked up by the event space's own index" if ok else f"decomposition differs: {brief(pr, 900)}", text="four-case decomposition")
     # the index function belongs to the event space built from (0,0)..(max_stock_a, max_stock_b)
-    ES = I.attrs["_random_event_space"]
+    ES = I.attrs[backing_attr(ctx, cls, "random_event_space")]
     okx = "ravel_multi_index" in show_norm(idx) and show_norm(Ma) in show_norm(ES) and show_norm(Mb) in show_norm(ES)
     rav = [t for t in subterms(idx) if t[0] == "app" and t[1] == "np.ravel_multi_index"]
     okx = len(rav) == 1 and rav[0][2][1] == T_add(T_sub(("app", "array", (("tuple", (Ma, Mb)),)), ("app", "array", (("tuple", (ZERO, ZERO)),))), ONE)
